@@ -263,7 +263,7 @@ class C04(SystematicMixin, E2ECheck):
     systematic = 'preempt'
     oracle = staticmethod(oracles.oracle_c04)
     quick_examples = 24000
-    thorough_examples = 600000
+    thorough_examples = 400000
     profile = {
         'rejects': True,
         'latency': True,
@@ -315,7 +315,7 @@ class C01(RealScaleMixin, LegacyMixin, E2ECheck):
     legacy_props = ('C01',)
     oracle = staticmethod(oracles.oracle_c01)
     quick_examples = 32000
-    thorough_examples = 600000
+    thorough_examples = 400000
     profile = {
         'types': ['upload', 'upload', 'copy'], 'ntransfers': (1, 3),
         'subs': {'max': 1, 'size': True}, 'body_scripts': True,
@@ -359,7 +359,7 @@ class C02(PoolMixin, RealScaleMixin, LegacyMixin, E2ECheck):
     legacy_props = ('C02',)
     oracle = staticmethod(oracles.oracle_c02)
     quick_examples = 32000
-    thorough_examples = 600000
+    thorough_examples = 400000
     profile = {
         'types': ['download'], 'ntransfers': (1, 2),
         'subs': {'max': 1, 'size': True}, 'stream_scripts': True,
@@ -394,7 +394,7 @@ class C03(SystematicMixin, E2ECheck):
     systematic = 'faults'
     oracle = staticmethod(oracles.oracle_c03)
     quick_examples = 32000
-    thorough_examples = 600000
+    thorough_examples = 400000
     profile = {
         'ntransfers': (1, 2), 'subs': {'max': 1, 'size': True},
         'body_scripts': True, 'stream_scripts': True,
@@ -436,7 +436,7 @@ class C05(SystematicMixin, LegacyMixin, E2ECheck):
     legacy_faults = True
     oracle = staticmethod(oracles.oracle_c05)
     quick_examples = 32000
-    thorough_examples = 500000
+    thorough_examples = 350000
     profile = {
         'latency': True,
         'types': ['upload', 'upload', 'copy'], 'ntransfers': (1, 2),
@@ -485,7 +485,7 @@ class C06(PoolMixin, SystematicMixin, LegacyMixin, E2ECheck):
     legacy_faults = True
     oracle = staticmethod(oracles.oracle_c06)
     quick_examples = 32000
-    thorough_examples = 500000
+    thorough_examples = 350000
     profile = {
         'cancel_points': True,
         'types': ['download'], 'dsts': ['path'], 'ntransfers': (1, 2),
@@ -523,7 +523,7 @@ class C07(E2ECheck):
     id = 'C07'
     oracle = staticmethod(oracles.oracle_c07)
     quick_examples = 32000
-    thorough_examples = 500000
+    thorough_examples = 350000
     profile = {
         'cancel_points': True,
         'latency': True,
@@ -568,7 +568,7 @@ class C08(E2ECheck):
     id = 'C08'
     oracle = staticmethod(oracles.oracle_c08)
     quick_examples = 32000
-    thorough_examples = 500000
+    thorough_examples = 350000
     profile = {
         'cancel_points': True,
         'latency': True,
@@ -653,7 +653,7 @@ class C09(RealScaleMixin, E2ECheck):
     id = 'C09'
     oracle = staticmethod(oracles.oracle_c09)
     quick_examples = 32000
-    thorough_examples = 600000
+    thorough_examples = 400000
     profile = {
         'types': ['upload', 'upload', 'download', 'download', 'copy'],
         'ntransfers': (1, 2), 'subs': {'min': 1, 'max': 2, 'size': True},
